@@ -59,6 +59,13 @@ class Spheroid(CenteredScatterer):
         self.rotation = rotation
         self.center = center
 
+        try:
+            if np.any(np.array(self.r) < 0):
+                raise InvalidScatterer(self, "semi-axis is negative")
+        except TypeError:
+            # priors as arguments: not checked (as for Sphere)
+            pass
+
     @property
     def indicators(self):
         inverserotate = np.linalg.inv(rotation_matrix(*self.rotation))
